@@ -27,9 +27,10 @@ fn check_range_query(case: &Case, q: &str, body: &str, line: &str, rep: &mut Rep
     let len: u32 = f[2].parse().unwrap();
     // the window the caller asked for, in bytes
     let lo = 2 * start;
-    let hi = if via_start_at { lo + len } else { lo + 2 * len };
-    // the window ethercrab can represent: u16 byte cursor, exclusive u16 end
-    let representable = (if via_start_at { lo + 2 * (len / 2) } else { hi }) <= 0xffff;
+    // ... clipped to the 2^16 words the provider's word addresses can reach
+    // start_at covers `len` bytes rounded up to whole words
+    let hi = (if via_start_at { lo + 2 * len.div_ceil(2) } else { lo + 2 * len }).min(0x2_0000);
+    let representable = true;
     let ops: Vec<&str> = f[3].split(',').collect();
     let outs: Vec<&str> = body.split('|').next().unwrap().split(',').collect();
     let mut pos = lo;
@@ -89,8 +90,6 @@ fn check_range_query(case: &Case, q: &str, body: &str, line: &str, rep: &mut Rep
     if let Some((k, what)) = bad {
         if !representable {
             eg::fail(rep, "c12/range-beyond-64k", &format!("window ends beyond byte 65535 (u16 cursor): {what}"), line);
-        } else if via_start_at && len % 2 == 1 {
-            eg::fail(rep, "c12/odd-length-truncated", &format!("start_at(word, {len}) makes a window of {} bytes: {what}", 2 * (len / 2)), line);
         } else {
             eg::fail(rep, &format!("c12/range-{k}"), &what, line);
         }
@@ -149,12 +148,13 @@ fn run_range_case(case: &Case, checked: bool, rep: &mut Report) {
 /// Random ranges anywhere in the 16-bit word space of a large image.
 fn random_range_case(rng: &mut Rng, img: &[u8], checked: bool, rep: &mut Report) {
     let words = (img.len() / 2).max(1) as u64;
+    let words = words.min(0xffff);
     let mut queries = Vec::new();
     for _ in 0..40 {
         let start = match rng.below(6) {
             0 => rng.range(0x7ff0, 0x8010),
             1 => rng.range(0xfff0, 0xffff),
-            _ => rng.below(words.min(0x7fff)),
+            _ => rng.below(words),
         };
         let len = match rng.below(5) {
             0 => rng.edgy(0xffff),
@@ -314,10 +314,10 @@ fn run_device_case(d: &DeviceDesc, pad_to_size: bool, rng: &mut Rng, checked: bo
         }
         let what = format!("{q}: got {} but the image encodes {}", &r.body[..r.body.len().min(200)], &exp[..exp.len().min(200)]);
         let cats = query_category(q, d);
-        let beyond = cats.iter().any(|t| reach_of(d, *t) > 0xfffc);
+        let beyond = cats.iter().any(|t| reach_of(d, *t) > 0x2_0000);
         let many_empty = cats.iter().any(|t| empties_before(*t) >= 32);
         if beyond {
-            eg::fail(rep, "c12/category-beyond-64k", &format!("category data beyond byte 65532 is out of reach of the u16 byte cursor: {what}"), &line);
+            eg::fail(rep, "c12/category-beyond-128k", &format!("category data beyond word 0xFFFF cannot be addressed through EepromDataProvider: {what}"), &line);
         } else if many_empty {
             eg::fail(rep, "c12/empty-category-heuristic", &format!("32 empty categories stop the search: {what}"), &line);
         } else if kind == "size" && size_word >= 511 {
@@ -461,7 +461,15 @@ fn run(tier: &str, seed: u64, checked: bool, rep: &mut Report) {
     let n_full = if thorough { 400 } else { 25 };
     let full = GenOpts::full();
     for i in 0..n_full {
-        let d = eg::gen_device(&mut rng, &full);
+        let mut d = eg::gen_device(&mut rng, &full);
+        // EepromDataProvider addresses 2^16 words: keep the categories inside 128 KiB
+        while d.encode().0.len() > 0x2_0000 - 8 {
+            for c in d.cats.iter_mut() {
+                if let CatDesc::TxPdo(p) | CatDesc::RxPdo(p) = c {
+                    p.pop();
+                }
+            }
+        }
         // pad a few images to their declared size (1 Kbit .. 4 Mbit)
         run_device_case(&d, i % 8 == 0, &mut rng, checked, rep);
     }
